@@ -53,12 +53,70 @@ fn main() {
             let rich = rng.chance(1, 3);
 
             // ---- the graph: position 0 is the root commit
-            let n = rng.range(3, 8) as usize;
+            // One case in eight: a merge of three parents with partially shared history
+            // (parents 1 and 3 descend from A, parent 2 only from R; A edits a file, parent 1
+            // edits it again): the merge base of the third parent must come from ALL parents
+            // merged so far.
+            let special = rng.chance(1, 8);
+            let mut n = rng.range(3, 8) as usize;
             let root_commit = store.root_commit();
             let mut commits: Vec<Commit> = vec![root_commit];
             let mut parents: Vec<Vec<usize>> = vec![vec![]];
             let mut mem: Vec<Option<T>> = vec![Some(T::new())];
-            for k in 1..=n {
+            let mut forced: Option<(usize, Vec<usize>)> = None;
+            if special {
+                let x = rng.below(names as u64) as u8;
+                let fx = |c: usize| V::File { c, x: false, cp: 0 };
+                let mut t_r = gen_tree(&mut rng, depth, names, rich);
+                t_r.insert(x, fx(0));
+                let e = rng.below(2);
+                let mut t_a = mutated(&mut rng, &t_r, e, names, rich);
+                t_a.insert(x, fx(1));
+                let e = rng.below(2);
+                let mut t_p1 = mutated(&mut rng, &t_a, e, names, rich);
+                t_p1.insert(x, fx(if rng.chance(1, 2) { 4 } else { 3 }));
+                let e = 1 + rng.below(2);
+                let mut t_p2 = mutated(&mut rng, &t_r, e, names, rich);
+                t_p2.insert(x, fx(0));
+                let e = 1 + rng.below(2);
+                let mut t_p3 = mutated(&mut rng, &t_a, e, names, rich);
+                t_p3.insert(x, fx(1));
+                let t_m = mutated(&mut rng, &t_p1, 1, names, rich);
+                let t_x = mutated(&mut rng, &t_r, 1, names, rich);
+                let mut order = vec![3usize, 4, 5];
+                if rng.chance(1, 3) {
+                    rng.shuffle(&mut order);
+                }
+                let plan: Vec<(Vec<usize>, T)> = vec![
+                    (vec![0], t_r),
+                    (vec![1], t_a),
+                    (vec![2], t_p1),
+                    (vec![1], t_p2),
+                    (vec![2], t_p3),
+                    (order.clone(), t_m),
+                    (vec![1], t_x),
+                ];
+                n = plan.len();
+                for (ps, t) in plan {
+                    let pids: Vec<CommitId> = ps.iter().map(|p| commits[*p].id().clone()).collect();
+                    let commit = mut_repo
+                        .new_commit(pids, resolved_tree(&store, &t))
+                        .write()
+                        .block_on()
+                        .unwrap();
+                    commits.push(commit);
+                    parents.push(ps);
+                    mem.push(Some(t));
+                }
+                forced = Some(if rng.chance(1, 2) {
+                    // rebase the three-parent merge away
+                    (6, vec![*rng.pick(&[7usize, 1, 2])])
+                } else {
+                    // rebase another commit onto the three parents
+                    (7, order)
+                });
+            }
+            for k in 1..=(if special { 0 } else { n }) {
                 let np = match rng.below(10) {
                     0..=6 => 1,
                     7 | 8 => 2,
@@ -117,14 +175,19 @@ fn main() {
             }
 
             // ---- what to rebase, and where to
-            let target = 1 + rng.usize(n);
+            let target = match &forced {
+                Some((t, _)) => *t,
+                None => 1 + rng.usize(n),
+            };
             let mut below = vec![false; n + 1]; // descendants of target (inclusive)
             below[target] = true;
             for k in target + 1..=n {
                 below[k] = parents[k].iter().any(|p| below[*p]);
             }
             let candidates: Vec<usize> = (0..=n).filter(|k| !below[*k]).collect();
-            let new_parents: Vec<usize> = if rng.chance(1, 10) {
+            let new_parents: Vec<usize> = if let Some((_, np)) = &forced {
+                np.clone()
+            } else if rng.chance(1, 10) {
                 parents[target].clone()
             } else {
                 let want = match rng.below(10) {
@@ -283,7 +346,8 @@ fn main() {
             );
             let same = new_parents == parents[target];
             let shape = format!(
-                "oldp={} newp={} {}{}{}",
+                "{}oldp={} newp={} {}{}{}",
+                if special { "3parents-shared " } else { "" },
                 parents[target].len().min(2),
                 new_parents.len().min(2),
                 if same { "same-parents " } else { "" },
